@@ -113,6 +113,30 @@ def check(ctx):
                 res['runs'].append(runpass.analyse_run(c, drv, props=['C12']))
         finally:
             drv.close()
+    if prop == 'C07':
+        # replacements by copy are rare events (ABC scout accepted, HS replace-worst, BHA exchange, GP
+        # reproduction): extra runs of exactly those kinds, long enough for the event to happen
+        import runlevel, random as _random
+        rng = _random.Random(seed * 31 + 5)
+        pool = [c for c in runlevel.gen_configs('thorough', seed + 91) if c['kind'] in ('ABC', 'HS', 'IHS', 'BHA', 'GP', 'CS')]
+        extra = []
+        for kind in ('ABC', 'HS', 'IHS', 'BHA', 'GP', 'CS'):
+            ks = [c for c in pool if c['kind'] == kind][:8 if tier == 'quick' else 30]
+            for c in ks:
+                c = dict(c, hook='observer', n_iter=8 if kind != 'GP' else c['n_iter'])
+                if kind == 'ABC':
+                    c['hyper'] = {'n_trials': rng.choice([1, 2])}
+                    c['n_vars'] = max(c['n_vars'], 2)
+                    if len(c['lb']) < c['n_vars']:
+                        c['lb'], c['ub'] = runlevel.make_box(rng, c['box'], c['n_vars'])
+                    c['objective'] = rng.choice(['boundary', 'signchange', 'positive'])
+                extra.append(c)
+        drv = common.Driver()
+        try:
+            for c in extra:
+                res['runs'].append(runpass.analyse_run(c, drv, props=['C07']))
+        finally:
+            drv.close()
     issues = collect(prop, res)
     runs = res['runs']
     nt = [r for r in runs if nontrivial(prop, r)]
